@@ -10,6 +10,8 @@
 (*   mulF, mulF2 : <<[id, id']>>  class of f*v and f^2*v for every class v, *)
 (*   vol <<id>>, volTable <<<<id>>>> (class of posV[p]*rotV[b]*f^3),        *)
 (*   positive (every stored entry and volume strictly positive, finite)]   *)
+(*   optional: partPosA, partRotA, partPosD, partRotD <<[n, m, id]>> = the    *)
+(*   adjacency / distance getters with only_position / only_orientation    *)
 (*   optional (growth G06): pref <<[n, m, id]>> = get_full_prefactors in   *)
 (*   stored order, prefT lookup table, prefPure, prefErr                   *)
 (* Value classes: relative 1e-9, shared by all numbers of the record.      *)
@@ -50,6 +52,20 @@ PrefClause(r) ==
      ELSE IF ~r.prefPure THEN "asking for the prefactors changed what the grid answers afterwards (borders / distances / volumes)"
      ELSE "ok"
 
+(* the same getters with their documented options (only_position: pairs of cells at ONE position, i.e. rotation neighbours;
+   only_orientation: pairs with ONE rotation, i.e. position neighbours), asked of the same object after the full matrices:
+   each is exactly the part of the full matrix between such cells - together they are the full matrix, nothing twice *)
+PartClause(r) ==
+  LET b == r.nB
+      tA == TLCEval(Triples(r.fullA))  tD == TLCEval(Triples(r.fullD))
+      SamePos(t) == {e \in t : e[1] \div b = e[2] \div b}
+      SameRot(t) == {e \in t : e[1] % b = e[2] % b}
+  IN IF Triples(r.partPosA) # SamePos(tA) \/ Triples(r.partPosD) # SamePos(tD)
+     THEN "an only_position matrix is not the part of the full matrix between cells at one position"
+     ELSE IF Triples(r.partRotA) # SameRot(tA) \/ Triples(r.partRotD) # SameRot(tD)
+     THEN "an only_orientation matrix is not the part of the full matrix between cells with one rotation"
+     ELSE "ok"
+
 ClauseG(r, verdict) ==
   LET n == r.nP * r.nB
       pA == TLCEval(DensePat(r.posA))  rA == TLCEval(DensePat(r.rotA))
@@ -82,6 +98,7 @@ ClauseG(r, verdict) ==
           THEN "the factor f is applied to another family than in the other grids"
      ELSE IF \E k \in 0 .. (n - 1) : r.vol[k + 1] # r.volTable[(k \div r.nB) + 1][(k % r.nB) + 1]
           THEN "6D volume is not position volume x rotation volume x f^3 in cell order"
+     ELSE IF "partPosA" \in DOMAIN r /\ PartClause(r) # "ok" THEN PartClause(r)
      ELSE IF "pref" \in DOMAIN r THEN PrefClause(r)
      ELSE "ok"
 
